@@ -17,7 +17,8 @@
 (***************************************************************************)
 EXTENDS Text, Json, IOUtils
 
-Rec == ndJsonDeserialize(IOEnv.TRACE)
+Rec  == ndJsonDeserialize(IOEnv.TRACE)
+PROP == IOEnv.PROP      \* "C07": construction attempts are judged;  "C06": builder text is judged
 VARIABLE l
 
 SeqSet(q) == {q[i] : i \in 1..Len(q)}
@@ -50,20 +51,37 @@ Judge(r, I, known) ==
 
 TBuilder ==
   /\ l <= Len(Rec) /\ Rec[l].event = "Build" /\ l' = l + 1
-  /\ Judge(Rec[l], InPos(Rec[l]), TRUE) = TRUE
+  /\ (PROP = "C07") => Judge(Rec[l], InPos(Rec[l]), TRUE) = TRUE
 
 (* text: wellformed texts were produced by the harness from a builder state   *)
 (* with a standard writer (fields as given in the in_ fields), else noise     *)
 TText ==
   /\ l <= Len(Rec) /\ Rec[l].event = "Parse" /\ l' = l + 1
   /\ LET r == Rec[l]
-     IN IF r.wellformed
+     IN IF PROP # "C07" THEN TRUE
+        ELSE IF r.wellformed
         THEN (/\ ReadFen(r.text) = [InPos(r) EXCEPT !.ep = ReadFen(r.text).ep]     \* the text says what the harness meant
               /\ Judge(r, [InPos(r) EXCEPT !.ep = ReadFen(r.text).ep], TRUE)) = TRUE
         ELSE Judge(r, StartPos, FALSE) = TRUE
 
+(* The unvalidated builder as a data structure: what was put in comes out again through the   *)
+(* getters and the index operator, it renders as the standard FEN of that state (whatever the *)
+(* state - no validity is required) and the rendering parses back to a builder that renders   *)
+(* identically (C06, last clause).                                                            *)
+BuilderEpPawnSq(r) == IF r.in_epfile = -1 THEN NoSq ELSE Sq(r.in_epfile, IF r.in_stm = "w" THEN 4 ELSE 3)
+TBuilderState ==
+  /\ l <= Len(Rec) /\ Rec[l].event = "BuilderState" /\ l' = l + 1
+  /\ LET r == Rec[l]
+         I == InPos(r)
+     IN (PROP = "C06") =>
+          (/\ r.text = FenWith(I, I.ep, " 0 1")
+           /\ r.text2 = r.text
+           /\ r.g_stm = r.in_stm /\ SeqSet(r.g_cr) = SeqSet(r.in_cr)
+           /\ r.g_ep = BuilderEpPawnSq(r)
+           /\ r.g_sq = r.in_sq) = TRUE
+
 TBInit == l = 1
-TBNext == TBuilder \/ TText
+TBNext == TBuilder \/ TText \/ TBuilderState
 TBSpec == TBInit /\ [][TBNext]_l
 Accepted ==
   LET d == TLCGet("stats").diameter - 1
